@@ -2176,6 +2176,30 @@ where M: Manager<Terminal = BDDTerminal>, M::InnerNode: HasLevel,
         1 <= c < node_id && (level as int) < top(nodes@[c - 1].view())
     }),
 //@end
+impl vstd::std_specs::convert::FromSpecImpl<OutOfMemory> for IoError {
+    open spec fn obeys_from_spec() -> bool { true }
+    open spec fn from_spec(v: OutOfMemory) -> IoError { IoError }
+}
+impl From<OutOfMemory> for IoError { fn from(v: OutOfMemory) -> (r: IoError) { IoError } }
+// the body of `for &root in &header.rootids { .. }` in `import()` (rule R16): under the header invariant established by
+// DumpHeader::load (root ids non-zero, |id| <= .nnodes; Kani suite dddmp_header) and `nodes.len() == .nnodes` the indexing cannot
+// panic; a positive id yields the node's handle, a negative one exactly what the caller's `complement` returns for it
+//@fn file=crates/oxidd-dump/src/dddmp/import.rs path=fn:import loopbody=1 looppat=&root rename=import__root tail=Ok(()) ret=r props=C15 subst_text=F::from_edge(::=from_edge(
+//@header
+fn import__root<M>(manager: &M, nodes: &Vec<M::Edge>, roots: &mut Vec<M::Edge>, root: isize, complement: impl Fn(&M, M::Edge) -> AllocResult<M::Edge>) -> (r: Result<(), IoError>)
+where M: Manager<Terminal = BDDTerminal>, M::InnerNode: HasLevel,
+//@spec
+    requires root != 0, (if root < 0 { -(root as int) } else { root as int }) <= nodes@.len(),
+        forall|mm: &M, ee: M::Edge| #[trigger] complement.requires((mm, ee)),
+    ensures r is Ok ==> ({
+        let i = (if root < 0 { -(root as int) } else { root as int }) - 1;
+        &&& final(roots)@.len() == old(roots)@.len() + 1
+        &&& forall|k: int| 0 <= k < old(roots)@.len() ==> final(roots)@[k] == old(roots)@[k]
+        &&& root > 0 ==> final(roots)@[old(roots)@.len() as int].view() == nodes@[i].view()
+        &&& root < 0 ==> exists|ee: M::Edge, res: M::Edge| ee.view() == nodes@[i].view()
+                && #[trigger] complement.ensures((manager, ee), AllocResult::Ok(res)) && final(roots)@[old(roots)@.len() as int].view() == res.view()
+    }),
+//@end
 } // mod dddmp_import
 mod apply_rec_u {
 use super::*;
